@@ -5,7 +5,9 @@ import z3
 from . import engine, symstr
 from .engine import SymInt, fresh_int
 
-REPO = "/repo"
+import os
+
+REPO = os.environ.get("VERIF_REPO", "/repo")  # development only: point the checks at a scratch copy
 
 
 class Ctx:
